@@ -104,10 +104,11 @@ func init() {
 			RequireProbes: []string{"fault_landed_on_entity", "fault_landed_on_escaper-chunk", "fault_landed_on_rawtext", "fault_landed_on_value", "fault_fired_sticky", "fault_fired_transient", "fault_fired_partial", "fault_fired_fullcount", "fault_fired_capacity", "fault_fired_with_pomsg_bundle",
 				"fault_fired_with_catalogue", "api_execute", "api_render", "writer_shape_plain", "writer_shape_flush-nil", "writer_shape_flush-err", "writer_shape_stringwriter", "writer_shape_bufferlike", "bundle_has_css", "bundle_has_msg", "bundle_has_literal", "bundle_has_sp", "bundle_has_letc", "bundle_has_log", "bundle_has_param-content", "bundle_has_call"},
 			ProbesNotApplicable: func(agg *Agg) []string {
-				// a renderer that buffers its output makes one write call per render: which kind of text a
+				// a renderer that buffers its output makes one write call per render (or one per few KB; the
+				// pinned tree makes about 115 per case): which kind of text a
 				// failing call carries is then not observable (the byte-capacity enumeration still reaches
 				// every offset of the output)
-				if agg.Counters["max_write_calls_in_a_case"] <= 2 {
+				if agg.Counters["max_write_calls_in_a_case"] <= 2 || agg.Counters["fault_free_write_calls"] < 20*agg.Counters["cases"] {
 					return []string{"fault_landed_on_entity", "fault_landed_on_escaper-chunk", "fault_landed_on_rawtext", "fault_landed_on_value", "fault_fired_transient", "fault_fired_partial", "fault_fired_fullcount"}
 				}
 				return nil
